@@ -1,6 +1,6 @@
 """C09 - result quantifiers enforce exactly the stated solution count.
 
-IR: {"n": satisfying elements, "extra": non-satisfying elements, "shape": "entity"|"set_of"|"two",
+IR: {"n": satisfying elements, "extra": non-satisfying elements, "shape": "entity"|"set_of"|"two"|"match",
      "q": ["an"] | ["the"] | ["exactly",k] | ["atleast",k] | ["atmost",k] | ["range",lo,hi]}
 Oracle: arithmetic on n.
 """
@@ -39,7 +39,7 @@ class C09(Check):
     title = "Result quantifiers enforce exactly the stated solution count"
     rule = (
         "Exhaustive grid: n in 0..7 solutions x every Exactly/AtLeast/AtMost/Range with bounds in -1..8 "
-        "x {entity, set_of, two-variable set_of} plus the(...) for every n; then seeded Hypothesis cases "
+        "x {entity, set_of, two-variable set_of, entity_matching(...)(...) description} plus the(...) for every n; then seeded Hypothesis cases "
         "with n up to 60. The number of solutions is produced by a real query (x.a < n over a larger "
         "domain), results are pulled one by one. Non-trivial: a bound is within 1 of n (off-by-one "
         "neighbourhood) or the constraint is rejected at construction. Distinct = distinct IR."
@@ -55,8 +55,16 @@ class C09(Check):
     }
     exhaustive = True
 
+    def setup_worker(self):
+        from krrood.entity_query_language.symbol_graph import SymbolGraph
+
+        from ..models import eql_world, match_world  # noqa: F401
+
+        SymbolGraph().clear()
+        SymbolGraph()  # the class diagram has to know the Symbol classes of the pattern-matching shape
+
     def enumerate(self, tier):
-        for shape in ("entity", "set_of", "two"):
+        for shape in ("entity", "set_of", "two", "match"):
             for n in range(0, 8):
                 yield dict(n=n, extra=2, shape=shape, q=["an"])
                 yield dict(n=n, extra=1, shape=shape, q=["the"])
@@ -82,7 +90,7 @@ class C09(Check):
                 st.tuples(st.sampled_from(["exactly", "atleast", "atmost"]), b).map(list),
                 st.tuples(st.just("range"), b, b).map(list),
             ))
-            return dict(n=n, extra=draw(st.integers(0, 5)), shape=draw(st.sampled_from(["entity", "set_of", "two"])), q=q)
+            return dict(n=n, extra=draw(st.integers(0, 5)), shape=draw(st.sampled_from(["entity", "set_of", "two", "match"])), q=q)
 
         return ir()
 
@@ -139,6 +147,15 @@ class C09(Check):
                 desc = set_of([x, y], x.a < nx, y.a == 0)
                 expected = {(id(xs[i]), id(ys[j])) for i in range(nx) for j in range(ny)}
                 row = lambda r: (id(r[x]), id(r[y]))
+            elif shape == "match":
+                from krrood.entity_query_language.match import entity_matching
+
+                from ..models.match_world import Part
+
+                xs = [Part(tag=0 if i < n else 1, label=str(i)) for i in range(n + extra)]
+                desc = entity_matching(Part, xs)(tag=0)
+                expected = {(id(xs[i]),) for i in range(n)}
+                row = lambda r: (id(r),)
             else:
                 xs = [Item(a=i) for i in range(n + extra)]
                 x = let(Item, xs)
